@@ -293,7 +293,7 @@ def c17_batch(binary, games, conv_alive, conv_lock, delays=None):
                 if pre == "go" and not prev_has_replies:
                     continue  # no GUI asks for a move in a finished game (and C04 excludes terminal positions)
                 if pre == "go":
-                    ok = ask(e, "go depth 1", lambda x: x.startswith("bestmove"), 60.0) is not None
+                    ok = ask(e, "go movetime 40", lambda x: x.startswith("bestmove"), 60.0) is not None  # (a time limit, not depth 1: the first iteration of a many-queens position has no bound)
                 elif pre == "ucinewgame":
                     e.send("ucinewgame")
                     ok = settle(e, 60.0)
@@ -319,7 +319,7 @@ def c17_batch(binary, games, conv_alive, conv_lock, delays=None):
                 if post == "go":
                     if not g["replies"]:
                         continue
-                    ok = ask(e, "go depth 1", lambda x: x.startswith("bestmove"), 60.0) is not None
+                    ok = ask(e, "go movetime 40", lambda x: x.startswith("bestmove"), 60.0) is not None  # (a time limit, not depth 1: the first iteration of a many-queens position has no bound)
                 else:
                     e.send(post)
                     ok = settle(e, 60.0)
